@@ -79,6 +79,10 @@ type Exec struct {
 // ListenHook, when set, replaces the network listen of the instrumented varlink package.
 var ListenHook func(network, address string) (interface{}, error)
 
+// ActivationHook, when set and returning non-nil, is what the instrumented package's activationListener() returns:
+// the process was started by socket activation and inherited this (controlled) listener.
+var ActivationHook func() interface{}
+
 // X is the execution in progress (nil outside of executions).
 var X *Exec
 
